@@ -302,7 +302,7 @@ fn stale_token() -> Vec<u8> {
 pub fn run(cli: Cli) -> ! {
     let rep = Report::new("C01", cli.tier, "model_checking");
     let stale = stale_token();
-    if let Some(case) = cli.replay.clone() {
+    if let Some(case) = cli.replay.clone().filter(|c| c.get("earlier").is_none() && c.get("issued").is_none()) {
         let s: Spec = serde_json::from_value(case["spec"].clone()).unwrap_or_else(|e| common::machinery(&format!("bad replay: {e}")));
         let c = build(&s, &stale);
         let obs = crate::sim::run(&c);
@@ -320,6 +320,68 @@ pub fn run(cli: Cli) -> ! {
         rep.set("transitions", json!(obs.packets.len().max(1)));
         rep.set("traces_validated_against_impl", json!(1));
         rep.finish();
+    }
+    // Two connections in one process, one after the other: the first (identity "Earlier_One") ends badly with a
+    // clientbound frame stuck in the transport; the fresh connection that follows must not be sent anything that
+    // was produced for the first (sequential, before the parallel sweep).
+    {
+        let hist = crate::sim::after_an_aborted_connection(Some(b"earlier-secret".to_vec()));
+        for (label, _first, _second, alone, after) in &hist {
+            let foreign = after.packets.iter().any(|(_, p)| match p {
+                Pkt::LoginSuccess { name, .. } => name == "Earlier_One",
+                Pkt::StoreCookie { payload, .. } => String::from_utf8_lossy(payload).contains("Earlier_One"),
+                _ => false,
+            });
+            if foreign {
+                rep.violation(Violation { key: "identity-of-another-connection".into(), text: format!("{label}: the second connection was sent a packet made for the first one's identity: {:?}", after.kinds()), replay: json!({"earlier": label}), weight: 5 });
+            } else if let Some(d) = crate::sim::differs_from_alone(alone, after) {
+                rep.violation(Violation { key: "packet-of-an-earlier-connection".into(), text: format!("{label}: {d}"), replay: json!({"earlier": label}), weight: 7 });
+            }
+        }
+        rep.set("histories_after_an_aborted_connection", json!(hist.len()));
+    }
+    // The cookie the router itself issued (expiry 1 s), presented 2.1 s later while the authentication service is
+    // down: it vouches for nobody any more, nothing may be granted.
+    {
+        let secret = b"issued-cookie-secret".to_vec();
+        let mut first = Case::default();
+        first.cfg.auth_secret = Some(secret.clone());
+        first.cfg.expiry = 1;
+        first.script = Login::default().steps();
+        let o1 = crate::sim::run(&first);
+        let issued = o1.packets.iter().find_map(|(_, p)| match p {
+            Pkt::StoreCookie { key, payload } if key == "passage:authentication" => Some(payload.clone()),
+            _ => None,
+        });
+        if let Some(cookie) = issued {
+            for (label, auth) in [("service-down", AuthPlan::Err), ("service-vouches-for-another", AuthPlan::Profile { name: "Vouched_Now".into(), uuid: 0x7777_0000_0000_4000_8000_0000_0000_7777, props: vec![] })] {
+                let mut second = Case::default();
+                second.cfg.auth_secret = Some(secret.clone());
+                second.cfg.expiry = 1;
+                second.script = Login { intent: 3, auth_cookie: Some(Some(cookie.clone())), name: "Claims_Again".into(), ..Default::default() }.steps();
+                let at = second.script.iter().position(|st| matches!(&st.act, Act::Cookie { key, .. } if key == "passage:authentication")).unwrap_or(0);
+                if label == "service-down" {
+                    second.script.insert(at, st(When::Idle, Act::RealSleep(2_100)));
+                }
+                second.adapters.auth = auth;
+                let o2 = crate::sim::run(&second);
+                let granted: Vec<&str> = o2.kinds().into_iter().filter(|k| matches!(*k, "LoginSuccess" | "StoreCookie" | "Transfer")).collect();
+                let under = o2.packets.iter().find_map(|(_, p)| if let Pkt::LoginSuccess { name, .. } = p { Some(name.clone()) } else { None });
+                let bad = match label {
+                    "service-down" => !granted.is_empty() || !o2.result.is_err(),
+                    // (presented at once the cookie is still good: either it is honoured or the service's verdict is used - never the claim)
+                    _ => under.as_deref().is_some_and(|n| n == "Claims_Again"),
+                };
+                if bad {
+                    rep.violation(Violation {
+                        key: format!("router-issued-cookie:{label}"),
+                        text: format!("the cookie issued on a first connection (expiry 1 s) presented {} ({label}): granted {granted:?} under {under:?}, result {:?}", if label == "service-down" { "2.1 s later" } else { "at once" }, o2.result),
+                        replay: json!({"issued": label}),
+                        weight: 6,
+                    });
+                }
+            }
+        }
     }
     let all = specs(cli.tier.thorough());
     let distinct: Mutex<HashSet<String>> = Mutex::new(HashSet::new());
